@@ -489,6 +489,11 @@ class Gen:
             ("RotationZMatrix(a)", RZ),
             ("RotationYMatrix(-a)", RYm),
             ("RotationZMatrix(-a)", RZm),
+            # compound symbolic angles (the printers assemble -sin(angle) from strings)
+            ("RotationYMatrix(a1+a2)", lz.RotationYMatrix(I.a1 + I.a2, n_events=n1)),
+            ("RotationZMatrix(a1-a2)", lz.RotationZMatrix(I.a1 - I.a2, n_events=n1)),
+            ("RotationZMatrix(3*a1)", lz.RotationZMatrix(3 * I.a1, n_events=n1)),
+            ("MatrixMultiplication(RY(a1+a2),RZ(-a1-a2))", MM(lz.RotationYMatrix(I.a1 + I.a2, n_events=n1), lz.RotationZMatrix(-I.a1 - I.a2, n_events=n1))),
             ("NegativeMomentum(p)", lz.NegativeMomentum(I.p)),
             ("NegativeMomentum(p+q)", lz.NegativeMomentum(ae.ArraySum(I.p, I.q))),
             ("BoostMatrix(NegativeMomentum(p+q))", lz.BoostMatrix(lz.NegativeMomentum(ae.ArraySum(I.p, I.q)))),
